@@ -5,7 +5,7 @@ Bounded-exhaustive exploration on the real functions (`opticomlib.utils.shortest
 
 shortest_int
     * EVERY data vector of length 1..8 over {0,1,2,3} (87 380 vectors = every tie pattern up to that
-      size; thorough: length <= 10) x 6 percentages,
+      size; thorough: length <= 9) x 6 percentages,
     * EVERY vector of length <= 6 over the scale mix {0, 0.5, 1e-3, 7} (thorough: <= 8),
     * EVERY vector of length <= 6 over the tiny-scale alphabet {0,1,2,3}*1e-11 (the statement is
       scale free; thorough: <= 8),
@@ -22,6 +22,7 @@ Oracles: see notes/C18.md.
 """
 from __future__ import annotations
 
+import functools
 import itertools
 import math
 import zlib
@@ -48,6 +49,7 @@ EPS = float(np.finfo(float).eps)
 
 
 # ------------------------------------------------------------------ lag
+@functools.lru_cache(maxsize=None)
 def lag_set(n, p):
     """floor(p*n/100): exact (p read as the decimal literal) and every float evaluation order"""
     exact = math.floor(Fraction(str(p)) * n / 100)
@@ -428,7 +430,7 @@ def run(ctx):
     ctx.assume('float subtraction is monotone, so "returned width > minimal width" in floats implies the same for the exact reals')
     ctx.assume('a constant signal (V_max == V_min, zero quantisation step) is outside the quantifier and is not enumerated')
 
-    plan = [('int4', 8 if q else 10), ('mix', 6 if q else 8), ('tiny', 6 if q else 8), ('i64', 6 if q else 7)]
+    plan = [('int4', 8 if q else 9), ('mix', 6 if q else 8), ('tiny', 6 if q else 8), ('i64', 6 if q else 7)]
     for alpha, maxlen in plan:
         part = f'si-exhaustive-{alpha}'
         cases = _batches(alpha, maxlen)
